@@ -221,6 +221,10 @@ class Sampler:
             return 0
         if fs["kind"] == "prim" and fs["ktype"] not in BLOBISH and depth <= 1 and r.random() < 0.04:
             return r.choice([126, 127, 128])
+        if (self.profile == "big" and self.big_left > 0 and fs["kind"] == "prim" and depth == 0
+                and fs["ktype"] in ("int8", "int16", "int32", "int64") and r.random() < 0.5):
+            self.big_left -= 1          # the instance's one large item is an array beyond the int16 limit
+            return r.choice([32767, 32768, 40000])
         n = {"min": r.choice([0, 0, 1]), "max": r.choice([2, 3, 4]),
              "big": r.choice([1, 1, 2])}.get(self.profile, r.choice([0, 1, 1, 2, 2, 3]))
         if depth >= 2:
